@@ -135,6 +135,11 @@ func c07Ref(a []rune) {
 		stream = append(stream, '\n')
 	}
 	stream = append(stream, []rune("zz y\n")...)
+	c07Stream(stream)
+}
+
+// c07Stream: successive calls on one scanner stop exactly at the recogniser's cuts.
+func c07Stream(stream []rune) {
 	nd.Observe(string(stream))
 	s := NewScanner(stream)
 	off := 0
